@@ -375,6 +375,29 @@ class CIMachine(FormatMachine):
             mv[f] = val
         return "ok"
 
+    def op_var_arches_inplace(self, op):
+        """mutate the arch SET in place (no attribute assignment)"""
+        s = self.slot(op)
+        vid = str(op.get("var"))
+        if s is None or vid not in s.pool:
+            return "noop"
+        v, mv = s.pool[vid], s.model["vars"][vid]
+        if not isinstance(mv.get("arches"), list) or not hasattr(v.arches, "add"):
+            return "noop"
+        how = op["how"]
+        if how == "add":
+            v.arches.add(op["value"])
+            if op["value"] not in mv["arches"]:
+                mv["arches"].append(op["value"])
+        elif how == "discard":
+            v.arches.discard(op["value"])
+            if op["value"] in mv["arches"]:
+                mv["arches"].remove(op["value"])
+        else:
+            v.arches.clear()
+            mv["arches"] = []
+        return "ok"
+
     def op_var_path(self, op):
         s = self.slot(op)
         vid = str(op.get("var"))
